@@ -210,6 +210,36 @@ def main():
             body += "Definition %s : re := %s.\n" % (nm, regex2coq.translate(pat))
             body += "Definition %s_src : pstr := %s.\n" % (nm, L.pstr(pat.pattern))
             body += "Definition %s_flags : Z := %s.\n" % (nm, L.Z(pat.flags))
+        # character classes the dedicated nosec parser needs, by evaluation under the patterns' own flags
+        import re as _re
+        import re._parser as _sp
+        tree = _sp.parse(bman.NOSEC_COMMENT.pattern, bman.NOSEC_COMMENT.flags)
+        ws_items = [it for it in tree if it[0] is regex2coq.C.MAX_REPEAT and it[1][2][0][0] is regex2coq.C.IN]
+        if len(ws_items) != 2:
+            raise ValueError("NOSEC_COMMENT: expected two \\s* items")
+        body += "Definition cs_nosec_space : cset := %s.\n" % regex2coq.cset(regex2coq.charset(ws_items[0][1][2][0], bman.NOSEC_COMMENT.flags))
+        ttree = _sp.parse(bman.NOSEC_COMMENT_TESTS.pattern, bman.NOSEC_COMMENT_TESTS.flags)
+        # expected shape: a single capturing group around one repeated character class
+        if not (len(ttree) == 1 and ttree[0][0] is regex2coq.C.SUBPATTERN and len(ttree[0][1][3]) == 1
+                and ttree[0][1][3][0][0] is regex2coq.C.MAX_REPEAT and ttree[0][1][3][0][1][0] == 1
+                and ttree[0][1][3][0][1][1] is regex2coq.C.MAXREPEAT and len(ttree[0][1][3][0][1][2]) == 1):
+            raise ValueError("NOSEC_COMMENT_TESTS is not ([class]+)")
+        body += "Definition cs_nosec_token : cset := %s.\n" % regex2coq.cset(
+            regex2coq.charset(ttree[0][1][3][0][1][2][0], bman.NOSEC_COMMENT_TESTS.flags))
+        # literal skeleton of NOSEC_COMMENT: '#' \s* 'nosec' ':'? \s* ([^#]+)? '#'?
+        skel = []
+        for it in tree:
+            if it[0] is regex2coq.C.LITERAL:
+                skel.append(chr(it[1]))
+            elif it[0] is regex2coq.C.MAX_REPEAT and it[1][2][0][0] is regex2coq.C.IN:
+                skel.append("<ws*>")
+            elif it[0] is regex2coq.C.MAX_REPEAT and it[1][2][0][0] is regex2coq.C.LITERAL:
+                skel.append("<%s?>" % chr(it[1][2][0][1]))
+            elif it[0] is regex2coq.C.MAX_REPEAT and it[1][2][0][0] is regex2coq.C.SUBPATTERN:
+                skel.append("<group?>")
+            else:
+                skel.append("<?>")
+        body += "Definition nosec_skeleton : pstr := %s.\n" % L.pstr("".join(skel))
         write("Regexes.v", body)
     except Exception as e:
         write("Regexes.v", "(* translator failed: %s *)\nDefinition TRANSLATOR_FAILED : False := I.\n" % str(e).replace("*)", "* )"))
